@@ -1,3 +1,136 @@
+/-
+  Driver.X05 — runs the X05 models (Golib.Ext.StrUtil) on operation lines.  Text travels as the hex of its bytes
+  (`-` = empty); lists of texts are `<n>:<h1>,<h2>,…` (`0:` = empty list, `1:-` = one empty text).
+
+    PAD <s> <n>            → <LPad> <RPad>
+    LPI <v> <size>         → <LPadInt>
+    CUT <s> <delim>        → <CutLastString> | panic
+    TP <s> <sep>           → <k> <v> | panic
+    SUB <s> <from> <to>    → <Substring>
+    SUBN <s> <from> <to> <n> → <list>
+    TOK <s> <delim>        → <Tokenizer list> <FirstWord> <LastWord>
+    SPL <s> <sep>          → <list>
+    TRM <s>                → <TrimEmpty> <TrimAllSpace>
+    TRN <s> <sz>           → <TruncateRune>
+    INS <s> <list>         → <StringInSlice> <Contains> <InArray> <InArrayCaseSensitive> <IsNotEmpty>
+    NUL <b>                → <list> | panic
+    ESC <s>                → <EscapeSpace>
+    CAT <items>            → <Concat>      items: s:<hex> | int:|i32:|i64:|u:|u32:|u64:<n>, comma separated, `-` = none
+    SAS <k> <v0|!> <maxCount> <ksz> <vsz> → <ParseMapSASToString> of the one-entry map
+    UL <s>                 → uuidutil.ToLong
+    TF <srcbits> <topbits> → float32 bits of TopFloat (the comparison is the machine's; not part of any theorem)
+    EX <t> <msg> <stack> <esc> → Error()
+    AN <colour> <s>        → ansi.<Colour>(s)
+-/
+import Golib.Ext.StrUtil
 import Driver.Common
-/-! Driver of the extension check X05 (placeholder until the model exists). -/
-def main : IO Unit := pure ()
+
+open Drv Ext.StrUtil
+
+def hx (s : String) : Option Bytes := ofHex s
+
+def showL (l : List Bytes) : String := s!"{l.length}:" ++ ",".intercalate (l.map hexOf)
+
+def parseL (s : String) : Option (List Bytes) :=
+  match s.splitOn ":" with
+  | [n, rest] => if n == "0" then some [] else (rest.splitOn ",").mapM hx
+  | _ => none
+
+def bit (b : Bool) : String := if b then "1" else "0"
+
+def parseItem (s : String) : Option Item :=
+  match s.splitOn ":" with
+  | ["s", h] => (hx h).map .str
+  | [_, n] => (parseInt n).map .int
+  | _ => none
+
+def parseColour : String → Option Colour
+  | "red" => some .red | "yellow" => some .yellow | "green" => some .green
+  | "cyan" => some .cyan | "blue" => some .blue | _ => none
+
+def f32gt (a b : Float32) : Bool := a > b
+
+def answer (line : String) : String :=
+  match line.splitOn " " with
+  | ["PAD", s, n] =>
+    match hx s, parseInt n with
+    | some s, some n => s!"{hexOf (lpad s n)} {hexOf (rpad s n)}"
+    | _, _ => "bad-op"
+  | ["LPI", v, n] =>
+    match parseInt v, parseInt n with
+    | some v, some n => hexOf (lpadInt v n)
+    | _, _ => "bad-op"
+  | ["CUT", s, d] =>
+    match hx s, hx d with
+    | some s, some d => match cutLast s d with | some r => hexOf r | none => "panic"
+    | _, _ => "bad-op"
+  | ["TP", s, d] =>
+    match hx s, hx d with
+    | some s, some d => match toPair s d with | some (k, v) => s!"{hexOf k} {hexOf v}" | none => "panic"
+    | _, _ => "bad-op"
+  | ["SUB", s, f, t] =>
+    match hx s, hx f, hx t with
+    | some s, some f, some t => hexOf (substring s f t)
+    | _, _, _ => "bad-op"
+  | ["SUBN", s, f, t, n] =>
+    match hx s, hx f, hx t, parseInt n with
+    | some s, some f, some t, some n => showL (substringN s f t n)
+    | _, _, _, _ => "bad-op"
+  | ["TOK", s, d] =>
+    match hx s, hx d with
+    | some s, some d => s!"{showL (tokenizer s d)} {hexOf (firstWord s d)} {hexOf (lastWord s d)}"
+    | _, _ => "bad-op"
+  | ["SPL", s, d] =>
+    match hx s, hx d with
+    | some s, some d => showL (Ext.Str.split s d)
+    | _, _ => "bad-op"
+  | ["TRM", s] =>
+    match hx s with
+    | some s => s!"{hexOf (trimEmpty s)} {hexOf (trimAllSpace s)}"
+    | none => "bad-op"
+  | ["TRN", s, n] =>
+    match hx s, parseInt n with
+    | some s, some n => hexOf (truncateRune s n)
+    | _, _ => "bad-op"
+  | ["INS", s, l] =>
+    match hx s, parseL l with
+    | some s, some l =>
+      s!"{bit (stringInSlice s l)} {bit (contains l s)} {bit (inArray s l)} {bit (inArrayCS s l)} {bit (isNotEmpty s)}"
+    | _, _ => "bad-op"
+  | ["NUL", b] =>
+    match hx b with
+    | some b => match nullTerm b with | some l => showL l | none => "panic"
+    | none => "bad-op"
+  | ["ESC", s] =>
+    match hx s with
+    | some s => hexOf (escapeSpace s)
+    | none => "bad-op"
+  | ["CAT", items] =>
+    match parseList parseItem items with
+    | some l => hexOf (concat l)
+    | none => "bad-op"
+  | ["SAS", k, v, mc, ksz, vsz] =>
+    match hx k, (if v == "!" then some none else (hx v).map some), parseInt mc, parseNat ksz, parseNat vsz with
+    | some k, some v, some mc, some ksz, some vsz => hexOf (mapSAS [(k, v)] mc ksz vsz)
+    | _, _, _, _, _ => "bad-op"
+  | ["UL", s] =>
+    match hx s with
+    | some s => s!"{toLong s}"
+    | none => "bad-op"
+  | ["TF", a, b] =>
+    match parseNat a, parseNat b with
+    | some a, some b =>
+      let r := topBy (fun (x y : Nat) => f32gt (Float32.ofBits (UInt32.ofNat x)) (Float32.ofBits (UInt32.ofNat y))) a b
+      s!"{r}"
+    | _, _ => "bad-op"
+  | ["EX", t, m, st, e] =>
+    match hx t, hx m, hx st, hx e with
+    | some t, some m, some st, some e => hexOf (errorText t m st e)
+    | _, _, _, _ => "bad-op"
+  | ["AN", c, s] =>
+    match parseColour c, hx s with
+    | some c, some s => hexOf (colour c s)
+    | _, _ => "bad-op"
+  | _ => "bad-op"
+
+def main : IO Unit := statelessLoop answer
